@@ -12,7 +12,7 @@
    last word are tied to the code by the correspondence run and the Spec
    oracle only (notes/C11.md). *)
 From Coq Require Import List ZArith.
-From RtoscV Require Import Pretty.Tok Pretty.FloatFmt Pretty.PrintModel Pretty.ScanModel
+From RtoscV Require Import Pretty.Tok Pretty.FloatFmt Pretty.FloatArith Pretty.FloatRangeProofs Pretty.PrintModel Pretty.ScanModel
   Pretty.Grammar Pretty.PrettyProofs Pretty.RunProofs Pretty.GrammarProofs.
 Import ListNotations.
 Local Open Scope Z_scope.
@@ -113,3 +113,39 @@ Theorem C11_grammar_nonvacuous : forall (dec2f dec2d : list Z -> Z),
                               45; 48; 46; 50; 53; 102; 32; 116; 114; 117; 101] /\
   gdenote dec2f dec2d ex_gsentence = [VI 31; VI (-12); VI (-1); VFl (dec2f [45; 48; 46; 50; 53]); VT].
 Proof. exact ex_gsentence_wf. Qed.
+
+(* stage 8: ranges over booleans, floats and doubles.  The float arithmetic of the recognisers
+   (FloatArith.v: exact integer arithmetic + one rounding to nearest-even) leaves every other type
+   to the integer / boolean arithmetic of Tok.v *)
+Theorem C11_range_arith_conservative : forall l lhs r u dl st j,
+  (is_flt lhs = false -> delta_x l lhs r u = delta_from_arg_vals l lhs r u) /\
+  (is_flt dl = false -> range_arg_x dl st j = range_arg dl st j).
+Proof. exact (fun l lhs r u dl st j => conj (delta_x_conservative l lhs r u) (range_arg_x_conservative dl st j)). Qed.
+
+(* 2.5f - 1.5f = 1.0f, 0.2f - 0.1f = 0.1f, (0.5f - 0.1f) / 0.1f = 4.0f, (int)3.75f = 3,
+   1.0 / 3.0 = 0x3fd5555555555555, (float)16777217 = 16777216.0f *)
+Theorem C11_float_arith_examples :
+  fl_sub 23 8 1075838976 1069547520 = Some 1065353216 /\
+  fl_sub 23 8 1045220557 1036831949 = Some 1036831949 /\
+  fl_div 23 8 1053609165 1036831949 = Some 1082130432 /\
+  fl_trunc 23 8 1081081856 = Some 3 /\
+  fl_div 52 11 4607182418800017408 4613937818241073152 = Some 4599676419421066581 /\
+  fl_of_int 23 8 16777217 = 1266679808.
+Proof. exact fl_examples. Qed.
+
+(* "[true false ...]" is a:F:4 true R:0:1 true false; "[1.5 2.5 ...]" (hexadecimal literals) is
+   a:f:4 1.5 R:0:1 1.0 2.5; "0.5 1.0 ... 2.5" is 0.5 R:4:1 0.5 1.0; in "0.5 1.0 ... 2.0 3.0 ... 5.0" the
+   second range takes the last value of the first for its left neighbour; "nil 3.0d ... 0.5d" is rejected *)
+Theorem C11_typed_range_examples : forall (dec2f dec2d : list Z -> Z),
+  (count_printed_arg_vals dec2f dec2d ex_bool_open = Ok (true, 5) /\
+   scan_arg_vals dec2f dec2d ex_bool_open 5 = Ok ([VArr 70 4; VT; VRep 0 1; VT; VF], [])) /\
+  (count_printed_arg_vals dec2f dec2d ex_float_open = Ok (true, 5) /\
+   scan_arg_vals dec2f dec2d ex_float_open 5
+   = Ok ([VArr 102 4; VFl 1069547520; VRep 0 1; VFl 1065353216; VFl 1075838976], [])) /\
+  (count_printed_arg_vals dec2f dec2d ex_float_fin = Ok (true, 4) /\
+   scan_arg_vals dec2f dec2d ex_float_fin 4 = Ok ([VFl 1056964608; VRep 4 1; VFl 1056964608; VFl 1065353216], [])) /\
+  (count_printed_arg_vals dec2f dec2d ex_float_two = Ok (true, 7) /\
+   scan_arg_vals dec2f dec2d ex_float_two 7
+   = Ok ([VFl 1056964608; VRep 3 1; VFl 1056964608; VFl 1065353216; VRep 3 1; VFl 1065353216; VFl 1077936128], [])) /\
+  count_printed_arg_vals dec2f dec2d ex_double_unit = Ok (false, 2).
+Proof. exact typed_range_examples. Qed.
